@@ -31,18 +31,28 @@ let cut_eq t =
 
 let pair (k, v) = (cs_of_string k, cs_of_string v)
 
-(* "load;E:VAR=v;F:key=v;Q:key=v;A:how" -> (process environment, flattened file) *)
+(* "load;E:VAR=v;F:key=v;Q:key=v;A:how;X:ext;D:ext:key=v" -> (process environment, selection).
+   D: items (decoy siblings of the selected file) are dropped here on purpose: they are not the selected file. *)
 let parse_load toks =
-  let env = ref [] and file = ref [] in
+  let env = ref [] and file = ref [] and how = ref "" and ext = ref "" in
   Stdlib.List.iter (fun t ->
       if Stdlib.String.length t > 2 && Stdlib.String.get t 1 = ':' then begin
         let body = Stdlib.String.sub t 2 (Stdlib.String.length t - 2) in
         match Stdlib.String.get t 0 with
         | 'E' -> env := cut_eq body :: !env
         | 'F' | 'Q' -> file := cut_eq body :: !file
+        | 'A' -> if !how = "" then how := fst (cut_eq body)
+        | 'X' -> if !ext = "" then ext := fst (cut_eq body)
         | _ -> ()
       end) toks;
-  (Stdlib.List.rev_map pair !env, Stdlib.List.rev_map pair !file)
+  let ext = match !ext with "" -> "yaml" | "none" -> "" | e -> e in
+  let sel = if !file = [] then None
+    else Some ((!how = "cwd", cs_of_string ext), Stdlib.List.rev_map pair !file) in
+  (Stdlib.List.rev_map pair !env, sel)
+
+let unsupported_selection = function
+  | None -> false
+  | Some ((cwd, ext), f) -> Config.read_file cwd ext f = None
 
 let verdict_text = function
   | Config.Accept -> "OK"
@@ -104,7 +114,7 @@ let model input =
        (match table_entry k with
         | Some ((_, _), d) -> k ^ "=" ^ string_of_cs d
         | None -> k ^ "=<absent>"))
-  | "load" :: toks -> let (env, file) = parse_load toks in render_loaded (Config.load_model tbl env file)
+  | "load" :: toks -> let (env, sel) = parse_load toks in render_loaded (Config.load_sel_model tbl env sel)
   | "validate" :: toks ->
     let v = parse_validate toks in
     verdict_text (Config.db_validate (if v.nil then None else Some v.cfg) v.st)
@@ -117,8 +127,12 @@ let spec input obs =
   if Config.table_ok tbl <> true then "FAIL key-table-malformed (see the obligations over BHSGen.ConfigKeys)" else
   match split_on ';' input with
   | "load" :: toks ->
-    let (env, file) = parse_load toks in
-    (match Config.load_spec tbl env file with
+    let (env, sel) = parse_load toks in
+    let file = match sel with Some (_, f) -> f | None -> [] in
+    (* a selected file with an extension viper does not know: the property statement is silent; only the
+       model comparison speaks (HEAD refuses it) *)
+    if unsupported_selection sel then "OK" else
+    (match Config.load_sel_spec tbl env sel with
      | None -> if obs = "LOAD-ERROR" then "OK" else "FAIL ill-typed-value-accepted got " ^ obs
      | Some cfg ->
        if obs = "LOAD-ERROR" then "FAIL load-refused-valid-sources" else
